@@ -1,0 +1,24 @@
+//go:build verif
+
+package messages
+
+import (
+	"reflect"
+	"sort"
+)
+
+// VerifRegistered describes one entry of the wire registry.
+type VerifRegistered struct {
+	Name string
+	Type reflect.Type // the struct type (messages are pointers to it)
+}
+
+// VerifRegisteredMessages lists the wire registry (sorted by name) for the verification harness.
+func VerifRegisteredMessages() []VerifRegistered {
+	out := make([]VerifRegistered, 0, len(internalMessageNameOfDesc))
+	for name, desc := range internalMessageNameOfDesc {
+		out = append(out, VerifRegistered{Name: name, Type: desc.typeOf})
+	}
+	sort.Slice(out, func(i, j int) bool { return out[i].Name < out[j].Name })
+	return out
+}
